@@ -37,7 +37,7 @@ ASSUMPTIONS = [
     "nothing is demanded about when within the call sequence a frame is returned",
     "check-sequence accessors may present the two octets as bytes or as an integer in either octet order",
 ]
-MUST_FIRE = {"quick": ["cut_after_escape", "max_size_frame", "header_only_frame", "leading_noise", "special_check_sequence_value", "bystander_reader_instance", "chunks_as_bytearray", "identical_frames_back_to_back", "stalled_delivery"], "thorough": ["cut_after_escape", "max_size_frame", "header_only_frame", "leading_noise", "extra_escaped_octets"]}
+MUST_FIRE = {"quick": ["cut_after_escape", "max_size_frame", "header_only_frame", "leading_noise", "special_check_sequence_value", "bystander_reader_instance", "chunks_as_bytearray", "identical_frames_back_to_back", "stalled_delivery", "over_1000_frames_in_one_call", "reused_receive_buffer"], "thorough": ["cut_after_escape", "max_size_frame", "header_only_frame", "leading_noise", "extra_escaped_octets"]}
 
 
 def gen(rng, tier, index):
@@ -47,6 +47,9 @@ def gen(rng, tier, index):
         n = rng.randint(1, 60)
         items.append({"t": "raw", "hex": rng.randbytes(n).replace(b"\x7e", b"\x7f").hex()})
     nframes = rng.choice([1, 2, 3, 5, 8, 13, 40]) if rng.random() < 0.7 else rng.randint(1, 40)
+    backlog = rng.random() < 0.012
+    if backlog:
+        nframes = rng.randint(1100, 1600)  # a consumer that was stalled gets more than a thousand short frames in very few calls
     big = rng.random() < 0.08
     items.append({"t": "flags", "n": rng.choice([1, 1, 2, 3, 9])})
     for seq in range(nframes):
@@ -64,6 +67,8 @@ def gen(rng, tier, index):
         if s["t"] == "frame":
             hot.append(s["start"] + hdlc_gen.header_len(items[s["i"]]))
     sc = {"cfg": [stuffing, abort], "items": items, "cuts": fragment.draw(rng, len(wire), hot)}
+    if backlog:
+        sc["cuts"] = rng.choice([{"m": "whole"}, {"m": "fixed", "k": 65536}, {"m": "fixed", "k": 40000}, {"m": "fixed", "k": 4097}])
     if rng.random() < 0.15:
         # a second connection in the same process: another reader instance fed other traffic in between
         other_cfg = list(rng.choice(hdlc_gen.CONFIGS))
@@ -103,6 +108,8 @@ def execute(sc):
         if not any(v["sig"] == sig for v in viol):
             viol.append({"sig": sig, "detail": detail})
 
+    if fed.changed_later is not None:
+        add("R", "returned-list-changed-by-later-call", "the list returned by read() call #%d held %d frames when it was returned and %d after later calls: what a call returned has to stay what it was (exactly once, in order, for a caller that keeps the lists)" % fed.changed_later)
     if fed.error is not None:
         idx, ex = fed.error
         add("exception", f"{type(ex).__name__} {reader_rig.exc_site(ex)}", f"read() call #{idx} raised {ex!r} on a clean stream")
@@ -159,6 +166,8 @@ def execute(sc):
         probes["bystander_reader_instance"] = 1
     if sc["cuts"].get("as"):
         probes["chunks_as_bytearray"] = 1
+    if len(sent) > 1000 and fragment.n_cuts(len(wire), sc["cuts"]) < 3:
+        probes["over_1000_frames_in_one_call"] = 1
     if any(a[0]["octets"] == b[0]["octets"] for a, b in zip(sent, sent[1:])):
         probes["identical_frames_back_to_back"] = 1
     probes[f"cfg_{int(stuffing)}{int(abort)}"] = 1
@@ -186,6 +195,8 @@ def summarise(sc, wire=None, returned=None):
 
 
 def candidates(sc):
+    for simpler in fragment.simpler(sc["cuts"]):
+        yield dict(copy.deepcopy(sc), cuts=simpler)
     items = sc["items"]
     if sc.get("bystander"):
         yield {k: v for k, v in copy.deepcopy(sc).items() if k != "bystander"}
@@ -193,9 +204,9 @@ def candidates(sc):
         yield dict(copy.deepcopy(sc), items=red)
     if sc["cuts"]["m"] == "list":
         for red in shrink.list_reductions(sc["cuts"]["at"]):
-            yield dict(copy.deepcopy(sc), cuts={"m": "list", "at": red} if red else {"m": "whole"})
+            yield dict(copy.deepcopy(sc), cuts=fragment.keep(sc["cuts"], {"m": "list", "at": red} if red else {"m": "whole"}))
     elif sc["cuts"]["m"] == "fixed":
-        yield dict(copy.deepcopy(sc), cuts={"m": "whole"})
+        yield dict(copy.deepcopy(sc), cuts=fragment.keep(sc["cuts"], {"m": "whole"}))
     for i, it in enumerate(items):
         if it["t"] == "flags" and it["n"] > 1:
             c = copy.deepcopy(sc)
